@@ -102,6 +102,9 @@ def tempdir_format(mode, root):
         return None
     if mode == "outside-uuid":
         return os.path.join(root, "scratch_u", "{uuid}", "part.{partition}")
+    if mode == "outside-uuid-suffix":
+        # the uuid is only a part of a path component
+        return os.path.join(root, "scratch_u", "pack-{uuid}.tmp", "sub", "part-{partition}")
     if mode == "outside-sibling":
         # a sibling of the dataset directory whose path string begins with the dataset path
         return os.path.join(root, "out.parq.scratch_s", "part-{partition}")
